@@ -76,6 +76,9 @@ def run(chk):
     chk.lean(codegen_checks.CODEGEN_MODULE, codegen_checks.CODEGEN_THEOREMS, extra_files=codegen_checks.CODEGEN_FILES)
     chk.lean(codegen_checks.PARTITION_MODULE, codegen_checks.PARTITION_THEOREMS, extra_files=codegen_checks.PARTITION_FILES)
     chk.lean(codegen_checks.DEFS_MODULE, codegen_checks.DEFS_THEOREMS, extra_files=codegen_checks.DEFS_FILES)
+    # independent specification quadSpec = Σ_q w_q · val(integrand graph) and kernel_meets_spec(_checked): translation validation of the
+    # real partition against the real IR graph (spec_link / values_link), Bool checks proved sound, exact exec-vs-spec over Rat
+    chk.lean(codegen_checks.SPEC_MODULE, codegen_checks.SPEC_THEOREMS, extra_files=codegen_checks.SPEC_FILES)
     with lean.Driver("driver_codegen") as d:
         codegen_checks.check_blocks(chk, d, ir_ents + codegen_checks.extra_entries())
         codegen_checks.check_synthetic(chk, d, chk.seed, 400 if chk.tier == "quick" else 5000)
